@@ -97,6 +97,15 @@ chk('C04',
     'documented iteration limits are inconclusive, not hangs.',
     'ASan+UBSan+libstdc++ assertions + exception trap + watchdog + error-report monitor over hostile inputs', 'DESIGN.md 4 C04')
 
+chk('C18',
+    'Runtime monitoring with a differential oracle: sequences of inputs (all ordered pairs of 13 input kinds enumerated, '
+    'longer sequences random, incl. generated expressions over random contexts) go through one long-lived Parser, Auditor '
+    'and Interpreter and, call by call, through freshly constructed ones; verdicts and errors must always be identical, '
+    'and on success every reported field (type, args, value class, tree with positions, generated text, value, iteration '
+    'count). Generator outputs are also compared with a driver process without history (static state).',
+    'Trusted: the equality comparison of recorded events. Memory faults during a sequence abandon it (C02/C04 judge them).',
+    'sanitizer build + differential monitor (reused vs fresh analyser, process with vs without history)', 'DESIGN.md 4 C18')
+
 for _p in ['C01', 'C02', 'C03', 'C04', 'C05', 'C06', 'C07', 'C08', 'C09', 'C10', 'C11', 'C12', 'C13', 'C15', 'C16',
            'C17', 'C18', 'C19']:
     if _p not in CHECKS:
